@@ -415,7 +415,7 @@ func main() {
 	r.Set("max_depth", depth)
 	r.Set("initial_slices", len(inits))
 	r.Set("size_bound", n)
-	r.Set("rule", "explicit-state BFS to fixpoint from NewSortedOrdered/NewSorted over every initial slice on {0,1,2} up to the given length, for the orders < and > (strict total orders) with alphabet Add(0..2), Remove(-1..3: absent below/inside/above), RemoveAt(-1..Len), and for a key-only less on (key,tag) pairs (ties); sorted-slice model compared through Get/Len/String/Index/Contains after every transition; caller's slice checked for copy semantics")
+	r.Set("rule", "explicit-state BFS to fixpoint from NewSortedOrdered/NewSorted over every initial slice on {0,1,2} up to the given length, for the orders < and > (strict total orders) with alphabet Add(0..2), Remove(-1..3: absent below/inside/above), RemoveAt(-1..Len), and for a key-only less on (key,tag) pairs (ties); sorted-slice model compared through Get/Len/String/Index/Contains after every transition; caller's slice checked for copy semantics PLUS deterministic families beyond the exhaustive bound (large sizes, every single/double removal from trees built in 7 orders, long one-instance churn histories): see the *_family_* counters")
 	r.Finish()
 }
 
